@@ -428,6 +428,89 @@ fn explore(st: &mut St, hist: &mut Vec<Op>, model: &Model, depth: usize) {
     }
 }
 
+#[metrics]
+#[derive(Default)]
+struct ChildShared {
+    n: usize,
+    shared_n: std::sync::Arc<std::sync::Mutex<u64>>,
+}
+#[metrics]
+#[derive(Default)]
+struct WorkShared {
+    a: usize,
+    #[metrics(flatten)]
+    child: Slot<ChildShared>,
+    #[metrics(flatten)]
+    lazy: LazySlot<ChildShared>,
+}
+
+/// Fixed histories with real threads: the slot value has a field behind `Arc<Mutex<_>>` that a
+/// helper thread holds locked (and then completes: 41 -> 42) while the guard is dropped on another
+/// thread. The entry must contain the complete value (`shared_n` = 42). Sound without a
+/// controlled scheduler: whichever of the guard's drop and the helper's unlock comes first, the
+/// unchanged tree reports 42; the 50 ms the helper keeps the lock only decide how surely a
+/// close that does not wait for the lock is seen.
+fn contended_value_histories(v: &mut Violations) -> u64 {
+    use std::sync::mpsc;
+    let mut n = 0;
+    for lazy in [false, true] {
+        for (wait, parent_first) in [(true, true), (true, false), (false, false)] {
+            n += 1;
+            let q: VecEntrySink<RootMetric<WorkShared>> = VecEntrySink::new();
+            let mut parent = WorkShared::default().append_on_drop(q.clone());
+            parent.a = 1;
+            let mut parent = Some(parent);
+            let p = parent.as_mut().unwrap();
+            let mode = if wait { OnParentDrop::Wait(p.flush_guard()) } else { OnParentDrop::Discard };
+            let mut guard = if lazy { p.lazy.open(ChildShared::default(), mode).unwrap() } else { p.child.open(mode).unwrap() };
+            guard.n = 7;
+            let shared = guard.shared_n.clone();
+            let (locked_tx, locked_rx) = mpsc::channel();
+            let (release_tx, release_rx) = mpsc::channel::<()>();
+            let helper = std::thread::spawn(move || {
+                let mut g = shared.lock().unwrap();
+                *g = 41;
+                locked_tx.send(()).unwrap();
+                let _ = release_rx.recv();
+                *g = 42;
+            });
+            locked_rx.recv().unwrap();
+            if parent_first {
+                drop(parent.take());
+            }
+            let (about_tx, about_rx) = mpsc::channel();
+            let dropper = std::thread::spawn(move || {
+                about_tx.send(()).unwrap();
+                drop(guard);
+            });
+            about_rx.recv().unwrap();
+            std::thread::sleep(std::time::Duration::from_millis(50));
+            release_tx.send(()).unwrap();
+            dropper.join().unwrap();
+            helper.join().unwrap();
+            drop(parent.take());
+            let entries = q.drain();
+            let history = json!({"slot": if lazy { "LazySlot" } else { "Slot" }, "mode": if wait { "wait" } else { "discard" },
+                "history": ["open", "guard.n = 7", "helper thread locks guard.shared_n, writes 41", if parent_first { "drop parent" } else { "(parent kept)" }, "another thread drops the guard", "helper writes 42, unlocks", if parent_first { "" } else { "drop parent" }]});
+            if entries.len() != 1 {
+                v.add("contended-slot-value:entry-count", format!("{} entries emitted, expected 1", entries.len()), history);
+                continue;
+            }
+            let e = to_test_entry(&entries[0]);
+            let got_n = e.metrics.get("n").map(|m| m.as_u64());
+            let got_shared = e.metrics.get("shared_n").map(|m| m.as_u64());
+            if got_n != Some(7) || got_shared != Some(42) {
+                v.add(
+                    "contended-slot-value:partial-value",
+                    format!("the guard was dropped before the entry was closed, but the entry has n = {got_n:?}, shared_n = {got_shared:?} (expected 7 and 42: closing waits for the field's lock)"),
+                    history,
+                );
+            }
+        }
+    }
+    n
+}
+
 fn main() {
     let mut rep = Report::from_args("C13", "model_checking");
     let default_hook = std::panic::take_hook();
@@ -467,6 +550,8 @@ fn main() {
         outcomes.extend(s.outcomes);
         rep.violations.merge(s.v);
     }
+    let contended = contended_value_histories(&mut rep.violations);
+    rep.set("histories_with_a_slot_value_field_locked_by_another_thread", contended);
     rep.set("states", h);
     rep.set("transitions", t);
     rep.set("traces_validated_against_impl", h);
